@@ -278,7 +278,10 @@ class QuantizationParameters:
         if not isinstance(other, QuantizationParameters):
             return False
 
-        return self.scale_f32 == other.scale_f32 and self.zero_point == other.zero_point
+        # the scale and zero point are None, scalars or (per-axis quantisation) arrays, possibly of different lengths
+        return np.array_equal(np.atleast_1d(self.scale_f32), np.atleast_1d(other.scale_f32)) and np.array_equal(
+            np.atleast_1d(self.zero_point), np.atleast_1d(other.zero_point)
+        )
 
     def is_valid(self) -> bool:
         """Return True if the quantisation parameters have a scale and zero point"""
